@@ -119,7 +119,8 @@ GotViol(m, c, i, rep) ==
            ELSE IF IsErr(rep) /\ fault THEN {}
            ELSE {<<"C03", c, i, "reply-without-answer">>})
         ELSE
-          (IF anyErr THEN (IF IsErr(rep) THEN {} ELSE {<<"C11", c, i, "fragment-error-hidden">>})
+          (IF anyErr THEN (IF IsErr(rep) THEN {}
+                           ELSE {<<"C11", c, i, "fragment-error-hidden">>, <<"C07", c, i, "error-merged-as-success">>})
            ELSE IF answered THEN
              (IF rep = MergeRep(m, c, i, r) THEN {}
               ELSE IF IsErr(rep) /\ fault THEN {}
